@@ -4,7 +4,7 @@
 static void entry(void){ }
 int main(void){
   unsigned long top = (unsigned long)VERIF_CHOICE();     /* value returned by the stack allocator (any address in a 1 MB window) */
-  static unsigned long blk[131072 / 8];                     /* the stack block; its end is 16 bytes above 'top' as in get_new_myth_thread_struct_stack */
+  static unsigned long blk[512 / 8];                       /* the stack block; its end is 16 bytes above 'top' as in get_new_myth_thread_struct_stack */
   unsigned long off = (unsigned long)VERIF_CHOICE();
   ASSUME(off >= 64 && off <= sizeof(blk) - 16);
   char *stk = (char *)blk + off;
